@@ -77,8 +77,10 @@ static size_t producer_fn(void* st, ZSTD_Sequence* out, size_t cap, const void* 
 }
 
 static void body(void) {
-    int kind = vx_choose(g_big == 2 ? 4 : 6), delim = vx_choose(2), repSearch = vx_choose(3), dictMode = vx_choose(g_big == 2 ? 1 : 3), minMatch = (g_big == 2 ? 5 : 3) + vx_choose(g_big == 2 ? 3 : 5), variant = vx_choose(7);
+    int kind = vx_choose(g_big == 2 ? 4 : 6), delim = vx_choose(2), repSearch = vx_choose(3), dictMode = vx_choose(g_big == 2 ? 1 : 3), minMatch = (g_big == 2 ? 5 : 3) + vx_choose(g_big == 2 ? 3 : 5), variant = vx_choose(8);
     if (g_big == 2) { kind += 6; if (!(variant == 0 || variant == 5 || variant == 6)) { vx_obs_u64(16); return; } }
+    int oversize = (variant == 7);    /* explicit delimiters with one block larger than the frame's block-size limit: to be refused, or emitted within the limit */
+    if (oversize && (!delim || g_big)) { vx_obs_u64(17); return; }
     size_t B = g_big ? (128u << 10) : 1024;              /* block size in force */
     size_t n = g_big == 2 ? (B + 65538 + 65536 + 300) : g_big ? (2 * B + 4321) : (4 * B + 333);
     size_t W = g_big ? (1u << 18) : 2048; int wlog = g_big ? 18 : 11;
@@ -124,8 +126,8 @@ static void body(void) {
         }
     } else {
         /* explicit delimiters: blocks of irregular sizes, each parsed on its own range with the full history */
-        static const size_t cuts0[] = {1024, 1024, 1024, 1024, 1024}, cuts1[] = {700, 1024, 1, 1000, 1024, 1024}, cuts2[] = {1023, 2, 1024, 512, 1024, 1024};
-        const size_t* cuts = variant % 3 == 0 ? cuts0 : variant % 3 == 1 ? cuts1 : cuts2; size_t pos = 0; int ci = 0;
+        static const size_t cuts0[] = {1024, 1024, 1024, 1024, 1024}, cuts1[] = {700, 1024, 1, 1000, 1024, 1024}, cuts2[] = {1023, 2, 1024, 512, 1024, 1024}, cuts3[] = {700, 1025, 1500, 300, 1024};
+        const size_t* cuts = oversize ? cuts3 : variant % 3 == 0 ? cuts0 : variant % 3 == 1 ? cuts1 : cuts2; size_t pos = 0; int ci = 0;
         while (pos < n) {
             size_t bs = g_big ? B : cuts[ci % 5]; if (g_big && (variant & 1)) bs = B - 7; if (bs > n - pos) bs = n - pos; ci++;
             size_t ll; size_t k = greedy_parse(base, dictLen + n, dictLen + pos, dictLen + pos + bs, minMatch, W, dictLen, g_seq + ns, &ll);
@@ -147,6 +149,7 @@ static void body(void) {
 
     /* ---- valid parse => conformant frame decoding to the source ---- */
     size_t r = ZSTD_compressSequences(c, g_dst, cap, g_seq, ns, src, n);
+    if (ZSTD_isError(r) && oversize) { vx_obs_u64(18); vx_stat_add("oversize_blocks_refused", 1); goto done; }
     if (ZSTD_isError(r)) { vx_fail("valid parse refused: %s", ZSTD_getErrorName(r)); goto done; }
     {   refcheck_t rc; rc_init(&rc); rc.maxBlockSize = g_big ? 0 : B;
         if (ref_check(&rc, g_dst, r, dictMode ? g_buf : NULL, dictLen, src, n, g_scratch, SRCMAX)) { vx_fail("frame from a valid parse: %s", rc.err); goto done; }
